@@ -136,6 +136,46 @@ def halton_function(ctx: Context) -> None:
         ok = n.rat(row).equals(n.rat(parse_expr(f"{ix} - 1 - n_start")))
     ctx.check(ok, "R1.halton-indices", "halton:row-of-index", "index i is stored in row i-1-n_start (no gap, no overlap)",
               f"row store is `{src(stores[0]) if stores else '?'}`", f, stores[0] if stores else lp)
+    # The digit loop must be driven by the running quotient itself: it stops when the quotient is exhausted, whatever the index.  A loop bounded by a
+    # digit count computed beforehand with floating-point logarithms is one digit short at exact powers of the base (ceil(log_b b^k) = k, but b^k has
+    # k+1 digits) and is at the mercy of rounding elsewhere - so the last point of a batch that ends on 2^k gets coordinate 0 in base 2.
+    def quotient_vars(loop: ast.AST) -> set[str]:
+        out: set[str] = set()
+        for x in ast.walk(loop):
+            if isinstance(x, ast.AugAssign) and isinstance(x.op, ast.FloorDiv) and isinstance(x.target, ast.Name):
+                out.add(x.target.id)
+            elif isinstance(x, ast.Assign):
+                v = x.value
+                tg = x.targets[0]
+                if isinstance(v, ast.BinOp) and isinstance(v.op, ast.FloorDiv) and isinstance(tg, ast.Name) and isinstance(v.left, ast.Name) and v.left.id == tg.id:
+                    out.add(tg.id)
+                if isinstance(v, ast.Call) and (dotted(v.func) or "").split(".")[-1] in ("divmod", "floor_divide") and v.args and isinstance(v.args[0], ast.Name):
+                    first = tg.elts[0] if isinstance(tg, (ast.Tuple, ast.List)) and tg.elts else tg
+                    if isinstance(first, ast.Name) and first.id == v.args[0].id:
+                        out.add(first.id)
+        return out
+
+    digit_loops = [x for x in ast.walk(f.node) if isinstance(x, (ast.While, ast.For)) and x is not lp and quotient_vars(x) and not any(
+        isinstance(y, (ast.While, ast.For)) and y is not x and quotient_vars(y) for y in ast.walk(x))]
+    ctx.floor("R1", "digit loop (repeated floor division of the index by the bases) in halton()", len(digit_loops), 1)
+    for dl in digit_loops:
+        qv = quotient_vars(dl)
+        if isinstance(dl, ast.While):
+            tested = {x.id for x in ast.walk(dl.test) if isinstance(x, ast.Name)}
+            ctx.check(bool(tested & qv), "R1.halton-digits", "halton:digit-loop-until-exhausted", "the digit loop runs while the running quotient is non-zero",
+                      f"the digit loop `while {src(dl.test)[:50]}` does not test the quotient it divides ({sorted(qv)})", f, dl)
+        else:
+            bound_names = {x.id for x in ast.walk(dl.iter) if isinstance(x, ast.Name)}
+            defs = [d for d in ast.walk(f.node) if isinstance(d, (ast.Assign, ast.AnnAssign)) and getattr(d, "value", None) is not None
+                    and any(isinstance(t, ast.Name) and t.id in bound_names for t in (d.targets if isinstance(d, ast.Assign) else [d.target]))]
+            texts = [src(dl.iter)] + [src(d.value) for d in defs]
+            uses_log = any(isinstance(c_, ast.Call) and (dotted(c_.func) or "").split(".")[-1] in ("log", "log2", "log10", "log1p") for t in [dl.iter] + [d.value for d in defs] for c_ in ast.walk(t))
+            if uses_log:
+                ctx.fail("R1.halton-digits", "halton:digit-loop-until-exhausted", f"the digit loop runs a number of rounds fixed beforehand from a floating-point logarithm (`{texts[-1][:80]}`): "
+                         "ceil(log_b N) is one short when N is an exact power of the base (and float rounding can shorten it elsewhere), so the leading digit of such an index is dropped - "
+                         "e.g. the last point of a batch ending on index 2^k has coordinate 0 in base 2", f, dl)
+            else:
+                raise AnalysisError(f"{f.loc(dl)}: the digit loop is bounded by `{src(dl.iter)[:60]}`, not by the exhaustion of the quotient; cannot decide whether every digit is produced")
     alloc = [s.value for s in f.node.body if isinstance(s, (ast.Assign, ast.AnnAssign)) and isinstance(s.value, ast.Call) and src(s.targets[0] if isinstance(s, ast.Assign) else s.target) == out_name]
     nin = normaliser(ctx.prog, f)
     ok = bool(alloc) and kwarg(alloc[0], "shape", 0) is not None and str(nin.rat(kwarg(alloc[0], "shape", 0))) == str(nin.rat(parse_expr("(sample_size, len(bases))")))
